@@ -31,6 +31,8 @@ pub enum Op {
     Le(String),
     Eq(String),
     Reset,
+    /// the inner operation with its j-th I/O call failing once (only appears in replay paths)
+    Faulted(Box<Op>, u64),
 }
 
 impl Op {
@@ -44,6 +46,7 @@ impl Op {
             Op::Le(_) => "le",
             Op::Eq(_) => "eq",
             Op::Reset => "reset",
+            Op::Faulted(..) => "faulted",
         }
     }
     pub fn brief(&self) -> String {
@@ -51,6 +54,7 @@ impl Op {
             Op::Ge(q) => format!("ge({})", brief(&unhex(q))),
             Op::Le(q) => format!("le({})", brief(&unhex(q))),
             Op::Eq(q) => format!("eq({})", brief(&unhex(q))),
+            Op::Faulted(o, j) => format!("{}!io-call#{}-fails", o.brief(), j),
             o => o.kind().to_string(),
         }
     }
@@ -82,6 +86,10 @@ pub struct SrcStats {
     /// start offsets of the reads since the last reset (a block load begins with a read at the
     /// block's file offset)
     pub read_starts: std::cell::RefCell<Vec<u64>>,
+    /// I/O calls (reads and seeks) since the last reset
+    pub calls: Cell<u64>,
+    /// when non-zero: the call with this ordinal (since the last reset) fails once
+    pub fail_at: Cell<u64>,
 }
 
 impl SrcStats {
@@ -92,6 +100,18 @@ impl SrcStats {
         self.read_bytes.set(0);
         self.min_read_off.set(u64::MAX);
         self.read_starts.borrow_mut().clear();
+        self.calls.set(0);
+        self.fail_at.set(0);
+    }
+    /// registers one I/O call; Err if it is the one armed to fail
+    fn call(&self) -> io::Result<()> {
+        let n = self.calls.get() + 1;
+        self.calls.set(n);
+        if self.fail_at.get() == n {
+            self.fail_at.set(0);
+            return Err(io::Error::new(io::ErrorKind::Other, "injected transient failure"));
+        }
+        Ok(())
     }
     /// number of block loads since the last reset: reads that start at the file offset of a block
     /// (its length prefix). Extra seeks that read nothing are not loads.
@@ -110,6 +130,7 @@ impl<'a> CountSrc<'a> {
 
 impl Read for CountSrc<'_> {
     fn read(&mut self, buf: &mut [u8]) -> io::Result<usize> {
+        self.stats.call()?;
         let pos = (self.pos as usize).min(self.data.len());
         let n = (self.data.len() - pos).min(buf.len());
         buf[..n].copy_from_slice(&self.data[pos..pos + n]);
@@ -129,6 +150,7 @@ impl Read for CountSrc<'_> {
 
 impl Seek for CountSrc<'_> {
     fn seek(&mut self, to: SeekFrom) -> io::Result<u64> {
+        self.stats.call()?;
         let new = match to {
             SeekFrom::Start(p) => {
                 self.stats.abs_seeks.set(self.stats.abs_seeks.get() + 1);
@@ -194,6 +216,7 @@ pub fn apply<R: Read + Seek>(c: &mut ReaderCursor<R>, op: &Op) -> Result<Option<
                 c.reset();
                 None
             }
+            Op::Faulted(..) => return Err("harness: a faulted operation needs the counting source".into()),
         })
     });
     match r {
@@ -211,6 +234,7 @@ pub fn model_step(m: &Model, pos: Pos, op: &Op) -> (Option<Option<usize>>, Pos) 
     let n = m.len();
     match op {
         Op::Reset => (None, Pos::Fresh),
+        Op::Faulted(..) => (None, Pos::Unspec),
         Op::First => {
             let r = if n > 0 { Some(0) } else { None };
             (Some(r), to_pos(r))
@@ -275,6 +299,9 @@ pub struct BfsOptions {
     pub check_loads: bool,
     pub max_states: usize,
     pub full_probes: bool,
+    /// also explore the states a cursor is left in when one I/O call of an operation fails once
+    /// (the failed call returns Err; what follows must still be history-independent)
+    pub with_faults: bool,
 }
 
 pub struct BfsOutcome {
@@ -346,6 +373,8 @@ pub fn bfs_file(
     parents.push((0, None));
 
     let mut transitions = 0u64;
+    let mut fault_transitions = 0u64;
+    let mut fault_states = 0u64;
     let mut max_depth = 0usize;
     let mut max_loads = 0u64;
     let mut stale_states = 0u64;
@@ -488,6 +517,34 @@ pub fn bfs_file(
                     max_depth = depth + 1;
                 }
             }
+            // the same operation with its j-th I/O call failing once: whatever state the cursor is
+            // left in is a reachable state (position unspecified); "first, last and seeks are
+            // unaffected by anything done before them" must hold from there too
+            if opt.with_faults && !matches!(op, Op::Reset) {
+                let io_calls = stats.calls.get();
+                for j in 1..=io_calls {
+                    let mut f = states[head].0.clone();
+                    stats.reset();
+                    stats.fail_at.set(j);
+                    let r = apply(&mut f, op);
+                    stats.fail_at.set(0);
+                    fault_transitions += 1;
+                    if let Err(e) = &r {
+                        if e.starts_with("panic") {
+                            // a panic on a failing source is C12's to report; not explored further
+                            continue;
+                        }
+                    }
+                    let fkey = (Pos::Unspec, fingerprint(&f));
+                    if !seen.contains_key(&fkey) {
+                        let id = states.len();
+                        seen.insert(fkey, id);
+                        states.push((f, Pos::Unspec, depth + 1));
+                        parents.push((head, Some(Op::Faulted(Box::new(op.clone()), j))));
+                        fault_states += 1;
+                    }
+                }
+            }
         }
         head += 1;
     }
@@ -498,6 +555,9 @@ pub fn bfs_file(
     acc.max("block_loads_per_operation", max_loads);
     acc.max("states_per_file", states.len() as u64);
     acc.count("states_with_stale_recorded_offset", stale_states);
+    acc.count("states_reached_through_a_failed_call", fault_states);
+    acc.count("transitions_with_an_injected_failure", fault_transitions);
+    acc.transitions += fault_transitions;
     if !closed {
         acc.count("files_not_closed", 1);
     }
@@ -517,6 +577,14 @@ pub fn replay_history(spec: &FileSpec, ops: &[Op], prop: &str) -> Result<String,
     let mut log = String::new();
     for (i, op) in ops.iter().enumerate() {
         stats.reset();
+        if let Op::Faulted(inner, j) = op {
+            stats.fail_at.set(*j);
+            let r = apply(&mut c, inner);
+            stats.fail_at.set(0);
+            log.push_str(&format!("  step {i}: {} with its I/O call #{j} failing once -> {}\n", inner.brief(), if r.is_err() { "Err" } else { "Ok (failure absorbed)" }));
+            pos = Pos::Unspec;
+            continue;
+        }
         let fp_before = fingerprint(&c);
         let mut next = c.clone();
         let got = apply(&mut next, op);
